@@ -179,3 +179,8 @@ add('C07', 'break', W, '''    state, rewards = jax.lax.scan(f, state, (), self.a
       rewards.append(r)
     state = state.replace(reward=sum(rewards))
     steps = state.info['steps'] + self.action_repeat''', 'python loop instead of scan: info dict shared with the input state')
+add('C19', 'benign', L, '  truncation_mask = 1 - truncation', '''  rewards, values, bootstrap_value = jax.lax.stop_gradient((rewards, values, bootstrap_value))
+  truncation_mask = 1 - truncation''', 'stop_gradient additionally on every input (same values, still no gradient)')
+add('C07', 'benign', W, '    return jax.vmap(self.env.reset)(rng)', '    return jax.vmap(lambda r: self.env.reset(r))(rng)', 'vmap of a lambda instead of the bound method')
+add('C16', 'benign', 'brax/envs/ant.py', '    rng, rng1, rng2 = jax.random.split(rng, 3)', '''    keys = jax.random.split(rng, 3)
+    rng, rng1, rng2 = keys[0], keys[1], keys[2]''', 'split result indexed instead of unpacked')
